@@ -692,6 +692,16 @@ class Gen:
                                    ("bin", "/", ("var", s), other)])
                 e = ("bin", rng.choice("+-"), e, term)
             lines[comp_of[s]].append({"name": f"d{s}_dt", "expr": e, "comment": None})
+        if len(states) >= 2 and rng.random() < getattr(self, "p_deriv_dep", 0.12):
+            # an intermediate computed from a state derivative, feeding another state's derivative (no cycle: nothing
+            # else ever reads a derivative)
+            s1, s2 = rng.sample(states, 2)
+            q = "rate_of_" + s1
+            if q not in names:
+                lines[rng.choice(comps)].append({"name": q, "expr": ("bin", "*", ("num", "2"), ("var", f"d{s1}_dt")), "comment": None})
+                for ln in lines[comp_of[s2]]:
+                    if ln["name"] == f"d{s2}_dt":
+                        ln["expr"] = ("bin", "+", ln["expr"], ("var", q))
         blocks = []
         for c in comps:
             sts = [s for s in states if comp_of[s] == c]
